@@ -9,7 +9,7 @@ CHECKS = {
          "Generated writer programs (interleavings, piece sizes placed on/next to cipher-buffer, chunk and block boundaries, all layer sets, levels, recipients) are executed through the real writer and read back through the real reader; names, bytes, sizes and SHA-256 are compared with an in-memory model. Exploration: finds alignment- and interleaving-dependent defects the suite cannot, establishes nothing beyond the explored programs.",
          "Trusts the harness model, the sha2 crate and that the scaled constants preserve the order/divisibility relations of the production ones; production programs are capped at 9 MiB.", "DESIGN.md section 4 C01"),
  "C02": ("fault_enumeration", "exhaustive truncation enumeration over proptest-generated archives (scaled constants: every length x 2 modes; production: windows around every structural boundary + spread sample), repair output judged against the model",
-         "Every prefix of generated archives (all layer sets, levels, interleavings) is repaired in both modes and the repaired archive is re-read: no panic, output opens, names are original names, contents are prefixes, files not reported unfinished are complete, end-of-data status implies completeness. The same on archives encoded by the independent implementation, and on archives of one file whose bytes from a compression-block boundary on are well-formed records of files that do not exist, with the compressed end of the block steered to chosen offsets of the repair reader's buffer (a repair that loses its place would output them). Exhaustive in the truncation length on the scaled build, so thin failing sets (15 lengths per chunk) are met by construction.",
+         "Every prefix of generated archives (all layer sets, levels, interleavings), read from memory or through a source that returns fewer bytes than asked, is repaired in both modes and the repaired archive is re-read: no panic, output opens, names are original names, contents are prefixes, files not reported unfinished are complete, end-of-data status implies completeness. The same on archives encoded by the independent implementation, and on archives of one file whose bytes from a compression-block boundary on are well-formed records of files that do not exist, with the compressed end of the block steered to chosen offsets of the repair reader's buffer (a repair that loses its place would output them). Exhaustive in the truncation length on the scaled build, so thin failing sets (15 lengths per chunk) are met by construction.",
          "Archives are a generated sample; the scaled build assumes the layer algorithms depend on the constants only through their order/divisibility; production windows are +-24 bytes.", "DESIGN.md section 4 C02"),
  "C03": ("fault_enumeration", "fault enumeration on the normal reader: every-byte bit flips incl. header, chunk swap/dup/delete/splice from a twin archive, truncations, header-field edits, over generated encrypted archives, with rotated read orders and buffer sizes; byte-by-byte comparison with the model",
          "After each alteration the normal reader either fails or returns only original names and original bytes at their positions (position-by-position comparison of every successful read, re-opened files included); the unaltered archive is the control. Exhaustive over byte positions on the scaled build.",
@@ -48,13 +48,13 @@ CHECKS = {
          "Layer streams of every plaintext length (every residue modulo chunk and block on the scaled build, boundary windows on the production build) are encoded by an independent implementation of the format; the library's layer readers, stacked as mlar does, must return the same positions and bytes as an in-memory cursor for generated seek/read histories within [0, L].",
          "Trusts refimpl (anchored to FORMAT.md by a self-test on samples/archive_v1.mla), the aes-gcm / brotli / x25519-dalek / hkdf crates.", "DESIGN.md section 4 C11"),
  "C15": ("exploration", "metamorphic measurement with a counting global allocator: generated (operation, layers, level, entropy, piece size, file count, interleaving) cases run at two data sizes (and two file counts) in dedicated worker processes; peak resident set of the mlar process (wait4) for six CLI scenarios at two data sizes",
-         "Peak live heap while writing, repairing and linearly extracting S and k*S bytes streamed from a generator into a counting sink must stay under 96 MiB and must not grow with the bytes streamed (peak(k*S) <= 1.25 peak(S) + 4 MiB); multiplying the number of files by 4 may cost at most 2 KiB per additional file.",
-         "Quick tier compares 8 MiB with 64 MiB, thorough 64 MiB with 1 GiB; only heap allocations through the global allocator are seen.", "DESIGN.md section 4 C15"),
+         "Peak live heap while writing, repairing and linearly extracting S and k*S bytes streamed from a generator into a counting sink must stay under 96 MiB and must not grow with the bytes streamed (peak(k*S) <= peak(S) + 64 KiB + 5 % + 32 bytes per additional non-contiguous run); multiplying the number of files by 4 may cost at most 2 KiB per additional file. Directed cases: one file in many small contiguous pieces (also with an empty append to a second open file after every piece), destinations that accept part of each write, sources that end early, repair in the unauthenticated mode.",
+         "Quick tier compares 32 MiB with 128 MiB, thorough 64 MiB with 1 GiB (the mlar process: 8 MiB with 96 MiB, resident set, allowance 12 MiB + 25 %); only heap allocations through the global allocator are seen.", "DESIGN.md section 4 C15"),
  "C16": ("exploration", "CLI property test in a snapshotted sandbox: generated member-name sets from a path grammar x extraction forms x output arguments, before/after filesystem snapshot as oracle",
          "`mlar extract` (built from the tree) runs inside a scratch sandbox; a recursive snapshot (path, type, size, SHA-256, link target) of everything outside the output directory, and the listing of the sandbox's parent, must be unchanged whatever the member names are ('..' chains, absolute paths into the sandbox, empty / 256-byte / unicode components, a symlink already present in the output directory); benign representable member sets (some members empty) must be extracted completely with exit status 0.",
          "Filesystem-imposed failures (256-byte components, NUL, prefix-related members) exclude a set from the completeness half only. Empty directories created through a pre-existing symlink of the output directory are counted, not reported (outside the statement's wording, DESIGN.md section 9).", "DESIGN.md section 4 C16"),
  "C17": ("exploration", "CLI round-trip property test: generated file trees (file names on the command line, as a directory, or listed on standard input) x layer/level/key options x create|convert|repair pipelines, every read-side command compared with the input files; negative runs with wrong / missing / superfluous keys",
-         "With the `mlar` binary built from the tree, after create and after every convert / repair stage, list, list -vv (humansize DECIMAL size and SHA-256), cat, both forms of extract and to-tar (parsed with the tar crate) must give back exactly the generated files; wrong key, no key and a key for an archive without encryption must fail with a non-zero status and no output content on all six commands.",
+         "With the `mlar` binary built from the tree, after create and after every convert / repair stage, list, list -vv (humansize DECIMAL size and SHA-256), cat, both forms of extract and to-tar (parsed with the tar crate) must give back exactly the generated files, and so must the archive that `repair -o -` of the intact archive writes to standard output; wrong key, no key and a key for an archive without encryption must fail with a non-zero status and no output content on all six commands.",
          "Sizes are bounded (one ~4 MiB file per tree at most, brotli quality <= 7) to keep a pipeline under a second.", "DESIGN.md section 4 C17"),
  "C18": ("exploration", "round-trip and totality property test of curve25519-parser over generated seeds, PEM wrappings, concatenations, mutated / random DER and PEM bytes and field-by-field generated PKCS#8 / SPKI structures with recomputed lengths; accepted inputs are checked against a structural envelope and inside PEM bundles; libFuzzer target in the thorough tier",
          "Generated X25519 pairs and harness-built Ed25519 pairs (SHA-512, clamp, base-point multiplication with curve25519-dalek) must parse in DER and PEM to a private key whose public key equals the parsed public key and the independently computed one; all PEM wrappings that are accepted must give the same key, the OpenSSL layout must be accepted, concatenated public keys (also the same key several times) keep their order and number; mutated and random inputs must never panic and, when accepted, must yield the key field a lenient TLV walk finds.",
@@ -63,7 +63,7 @@ CHECKS = {
          "For generated seeds (unicode, empty, long), parent keys (unclamped / clamped X25519 DER, Ed25519 DER, PEM, PEM with explanatory text around the block) and path lists (1..4, repeated, empty), the files written by `mlar keygen --seed` and `mlar keyderive` must equal the documented algorithm, be reproducible, compose path by path, and the .pub file must match the private file.",
          "Open finding keyderive-ikm-not-clamped is reported as KNOWN-FINDING and only suppresses outputs that equal the unclamped-IKM variant for parents not in clamped form. Trusts sha2, hkdf, x25519-dalek as primitives.", "DESIGN.md section 4 C19"),
  "C20": ("exploration", "stateful property test of the C entry points of libmla.so (dlopen, Rust callbacks) in worker processes: generated op sequences x write/read callback schedules x failure and null-handle placements, Rust reader and model as oracle",
-         "Archives written through mla_config_* / mla_archive_* with write callbacks accepting any part of each buffer must be read by the Rust reader to exactly the files passed in; mla_roarchive_extract with throttled read/seek callbacks must hand each accepted writer exactly its file; every call with a null or interface-cleared handle and every call after a failing callback must return a status, and the worker process must survive.",
+         "Archives written through mla_config_* / mla_archive_* with write callbacks accepting any part of each buffer must be read by the Rust reader to exactly the files passed in; mla_roarchive_extract with throttled read/seek callbacks must hand each accepted writer exactly its file, also on a reader context that mla_roarchive_info or an earlier extraction has used and the caller did not reposition; every call with a null or interface-cleared handle and every call after a failing callback must return a status, and the worker process must survive.",
          "libmla.so is built in the dev profile; the C header is transcribed by hand into the driver (mla.h).", "DESIGN.md section 4 C20"),
 }
 NOT_YET = "check not built yet (work in progress, see DESIGN.md section 8)"
